@@ -16,6 +16,16 @@ def body(c):
             if r.ok:
                 raise tlc.TLCError("model lost its sensitivity: configuration %s (a repair switched off) no longer yields a counterexample" % name)
             sens.append("%s -> %s %s" % (name, r.violated[0], r.violated[1]))
+    # the auto-batching controller (batch sizes of batch_size='auto'): never below 1, at most doubling, estimate reset on change
+    import os as _os
+    for nm, durs, ms, fix in (("fast/ideal/slow", {1, 400, 3000}, 16, True), ("fast/slower/slow", {1, 20, 3000}, 32, True), ("clamp_off", {1, 20, 400, 3000}, 4096, False)):
+        if c.quick and nm == "fast/slower/slow": continue
+        pth = _os.path.join(common.VERIF, "out", "cfg", "AUTO_%s.cfg" % nm.replace("/", "_"))
+        tlc.write_cfg(pth, constants=dict(Durations=durs, MaxSize=ms, FixClamp=fix), spec="Spec", invariants=["SizeAtLeastOne", "ResetOnChange"], properties=["GrowthBounded"], constraint="Bounded")
+        r = c.model_check("AutoBatch[%s]" % nm, "AutoBatch", pth, must_hold=fix, workers=8, timeout=600)
+        if not fix:
+            if r.ok: raise tlc.TLCError("AutoBatch lost its sensitivity: without the lower clamp the batch size must be able to reach 0")
+            sens.append("AutoBatch clamp_off -> %s %s" % r.violated)
     c.extra["model_sensitivity"] = sens
     # 2. code -> design model (conformance, drift) and design model -> code (replay of simulated behaviours)
     conf, gcfgs = pscen.conformance("C01", c.quick)
